@@ -551,6 +551,10 @@ impl<F: Field + PrimeCharacteristicRing + Copy, const D: usize> AluAir<F, D> {
                             for s in 0..num_int {
                                 let i0 = *first_idx + step;
                                 let i1 = *first_idx + step + 1;
+                                if i0 >= *first_idx + k {
+                                    // Intermediates beyond this row's arity are unused.
+                                    break;
+                                }
                                 let v0 = &trace.values[i0];
                                 if i1 < *first_idx + k {
                                     let v1 = &trace.values[i1];
